@@ -16,6 +16,11 @@ from ..errors import ParenthesesError, TokenError
 import regex
 
 
+def _is_closed(token):
+    # A closing parenthesis or brace ends an operand (e.g., `(1)` or `{1}`).
+    return isinstance(token, Parenthesis) and token.has_end
+
+
 class Parenthesis(Token):
     _re = regex.compile(
         r'^\s*(?>(?P<name>(?P<start>\())\s*|(?P<name>(?P<end>\))))'
@@ -30,7 +35,9 @@ class Parenthesis(Token):
                                  Separator) and self.get_name == ')':
             from .operand import Empty
             Empty().ast(tokens, stack, builder)
-        if self.has_start and tokens and isinstance(tokens[-1], Operand):
+        if self.has_start and tokens and (
+                isinstance(tokens[-1], Operand) or _is_closed(tokens[-1])
+        ):
             raise TokenError
         super(Parenthesis, self).ast(tokens, stack, builder)
         if self.has_start:
